@@ -64,3 +64,21 @@ Theorem C01_descendant_over_descendant_same_set : forall D has_ns t t2 self n x,
    (exists m, In m (nodes_of (step_descendant D has_ns false t n)) /\ In x (nodes_of (step_descendant D has_ns self t2 m)))).
 Proof. exact dod_same_set. Qed.
 Print Assumptions C01_descendant_over_descendant_same_set.
+
+(* ---- END TO END (Proofs/EndToEndPaths.v): from the TEXT of a predicate-free location
+   path to the selected node set, through the real scanner, parser, builder and
+   evaluator.  [path_syntax p]: p is a relative or absolute location path without
+   predicates over the twelve axes (explicit or abbreviated: a, @a, ., .., //) and the
+   node tests name, *, node(), text(), comment(); [steps_of p] its list of
+   (axis, node test) steps; [print_ws w p] the text of p with the white space [w i]
+   before token i.  For every such path, every white-space layout, every namespace map,
+   every document and every valid context node: Compile succeeds and Select returns
+   exactly the XPath denotation. ---- *)
+From XP.Proofs Require Import RoundTripPaths RoundTripWs EndToEndPaths.
+
+Theorem C01_end_to_end : forall D has_ns hcode rm rn rr re_ok ns w p abs steps,
+  ws_fun w -> path_syntax p -> steps_of p = (abs, steps) -> xok p ->
+  List.length steps < max_build_depth -> hash_ok hcode (all_nodes D) ->
+  exists q, compile re_ok (print_ws w p) ns = Ok q /\ selects_path D has_ns hcode rm rn rr q abs steps.
+Proof. exact C01_end_to_end_ws. Qed.
+Print Assumptions C01_end_to_end.
